@@ -4,6 +4,7 @@ them on the library and records, (4) TLC validates the recorded traces."""
 from __future__ import annotations
 
 import copy
+import json
 import random
 
 from . import datasets
@@ -745,7 +746,7 @@ def _no_repeats(W):
 
 def _grammar_check(prop, tier, seed, grammars, rule, nvars, leaf_quick=40, sim_quick=400, sim_full=6000,
                    worlds_per_prog=(1, 3), nontrivial=None, quick_cap=2500, full_cap=40000, events=None,
-                   maxleaves_sim=(3, 5), needs=None, fix_world=None, extra=None):
+                   maxleaves_sim=(3, 5), needs=None, fix_world=None, extra=None, fix_doms=None):
     run = Run(prop, tier, seed)
     quick = tier == "quick"
     run.rule = rule
@@ -770,6 +771,8 @@ def _grammar_check(prop, tier, seed, grammars, rule, nvars, leaf_quick=40, sim_q
                 W, doms = _world_and_doms(rng, nvars, quick)
                 if fix_world:
                     W = fix_world(copy.deepcopy(W))
+                if fix_doms:
+                    doms = fix_doms(p, W, doms, rng)
                 q = mk_query(p, doms)
                 # evaluated twice: the second evaluation is served by the operator caches
                 qc.add(W, [q], events(q) if events else [drain_ev(), drain_ev()])
@@ -845,13 +848,35 @@ def check_C17(tier, seed):
 def check_C15(tier, seed):
     def events(q):
         return [drain_ev(), drain_ev()]
+
+    def the_ok(p):
+        # a correlated the(...) is only meaningful where the enclosing variable is bound before it is reached: alone with
+        # the enclosing variable's expression on the left, or as the right conjunct of conditions on that variable
+        c = p["cond"]
+        if '"quant": "the"' not in json.dumps(c):
+            return True
+
+        def the_leaf(n):
+            return n["k"] == "cmp" and '"quant": "the"' in json.dumps(n["r"]) and '"quant"' not in json.dumps(n["l"])
+        return the_leaf(c) or (c["k"] == "and" and the_leaf(c["r"]) and '"i": 2' not in json.dumps(c["l"])
+                               and '"quant"' not in json.dumps(c["l"]))
+
+    def the_doms(p, W, doms, rng):
+        # the(entity(y, y == x.ref)) has exactly one solution per x when y ranges over the whole heap
+        if '"quant": "the"' in json.dumps(p["cond"]):
+            allobjs = list(range(1, len(W["objs"]) + 1))
+            rng.shuffle(allobjs)
+            return [doms[0], allobjs]
+        return doms
     return _grammar_check(
         "C15", tier, seed, ["G6"],
         "sub-queries an(entity(x, c)), an(entity(y, c)), an(set_of([x, y], c)) used as conditions of an enclosing query "
         "and combined with and_/or_/not_ with each other and with plain conditions; sub-queries used as comparison "
         "operands (an(entity(y, c)).n == x.m, an(entity(y, c)) == x.ref, contains(x.refs, an(...))); TLC gives each the "
-        "meaning of its conditions inlined; non-trivial = result neither empty nor everything", 2, events=events,
-        needs=lambda p: count_nodes(p["cond"], "subq") + count_nodes(p["cond"], "sub") > 0)
+        "meaning of its conditions inlined; correlated sub-queries (inner condition on a variable of the enclosing query) "
+        "with an and with the (unique solution per outer binding); non-trivial = result neither empty nor everything", 2,
+        events=events, needs=lambda p: count_nodes(p["cond"], "subq") + count_nodes(p["cond"], "sub") > 0 and the_ok(p),
+        fix_doms=the_doms)
 
 
 CHECKS.update({"C10": check_C10, "C15": check_C15, "C16": check_C16, "C17": check_C17})
